@@ -109,6 +109,30 @@ class Ref:
         s = " | sz=%d d=%s t=[%s] p=[%s] l=[%s] pd=[%s]" % (size, B(self.d), t, p, l, pd)
         return s
 
+    def expected_rc(self):
+        """where pending c-strings must be readable after serialize -> parse; None when not judged
+        (two c-strings on one cell, or a c-string sharing its cell with a string/pointer: outside the property's domain)"""
+        cells = [c for c, _ in self.cs]
+        if len(set(cells)) != len(cells):
+            return None
+        if any(c in self.text or c in self.ptr for c in cells):
+            return None
+        if any(0 in s for _, s in self.cs):
+            return None
+        # cells must not overlap each other or string / pointer cells
+        occupied = sorted(set(cells) | set(self.text) | set(self.ptr))
+        for x, y in zip(occupied, occupied[1:]):
+            if y - x < 4:
+                return None
+        if any(k + 4 > len(self.d) for k in occupied):
+            return None
+        # the image is only required to parse back for archives in C01's domain (targets and labels inside)
+        if any(v > len(self.d) for v in self.ptr.values()) or any(k > len(self.d) for k in self.lab):
+            return None
+        if any(0 in s for s in self.text.values()) or any(0 in n for b in self.lab.values() for n in b):
+            return None
+        return "[" + ",".join("%d:%s" % (c, B(s)) for c, s in sorted(self.cs)) + "]"
+
     # ---------------------------------------------------------------- dispatcher
     def apply(self, op, args):
         """returns result string, or None when this operation is outside the reference's scope"""
@@ -375,7 +399,7 @@ def expected(line, serializer=None):
             out.append(None)
             continue
         st = r.state(min(level, 1))
-        out.append((res, st))
+        out.append((res, st, r.expected_rc() if level >= 2 else None))
     return out
 
 
@@ -390,12 +414,19 @@ def judge(line, impl_out, serializer=None):
     for i, (got, want) in enumerate(zip(steps, exp)):
         if want is None:
             continue
-        res, st = want
-        # compare result and the s1 part of the state (serialize image, if present, is judged elsewhere)
+        res, st, rc = want
+        # compare result and the s1 part of the state (the serialize image itself is judged elsewhere)
         g = got
         ser = None
+        got_rc = None
         if " ser=" in g:
             g, ser = g.rsplit(" ser=", 1)
+        if " rc=" in g:
+            g, got_rc = g.rsplit(" rc=", 1)
         if g != res + st:
             return "step %d: reference says %r, implementation %r" % (i, (res + st)[:300], g[:300])
+        if rc is not None and ser is not None:
+            # pending c-strings must be where the reference has them once the image is parsed again
+            if ser == "err" or got_rc != rc:
+                return "step %d: pending c-strings: reference says %s, re-parsed image has %s (ser=%s)" % (i, rc, got_rc, (ser or "")[:40])
     return None
